@@ -37,6 +37,9 @@ class Chooser(object):
                 for (k, n, info), c in zip(self.points, self.taken)]
 
 
+MAX_JOB_SECONDS = 1800     # wall-clock safety net per job (the unchanged tree needs < 3 min for its longest job)
+
+
 class Explorer(object):
     """make_run(chooser, explorer) executes one run and returns a result object.
     check(chooser, result) is called for every run (truncated ones included)."""
@@ -56,6 +59,8 @@ class Explorer(object):
         self.runs = 0
         self.truncated = 0
         self.capped = False
+        self.stop_when = None     # callable() -> bool, asked after every run
+        self.stopped_early = False
         self.chooser = None
 
     # called by the environment at every quiescent decision point, before it draws its choice
@@ -93,10 +98,12 @@ class Explorer(object):
         return True
 
     def run(self):
+        import time as _time
         stack = [[]]
+        t_end = _time.time() + MAX_JOB_SECONDS
         while stack:
-            if self.max_runs is not None and self.runs >= self.max_runs:
-                self.capped = True
+            if (self.max_runs is not None and self.runs >= self.max_runs) or _time.time() > t_end:
+                self.capped = True     # reported in the evidence; what was explored below the cap still counts
                 break
             prefix = stack.pop()
             ch = Chooser(prefix)
@@ -106,6 +113,11 @@ class Explorer(object):
             if len(ch.taken) < len(prefix):
                 raise W.HarnessError('run ended before its prefix was consumed: %r (took %r)' % (prefix, ch.taken))
             self.check(ch, result)
+            if self.stop_when is not None and self.stop_when():
+                # the job has already decided "violated" many times over; a change that makes the state space unbounded must
+                # not keep the search running for hours (reported in the evidence as a cap)
+                self.stopped_early = True
+                break
             for i in range(len(ch.points) - 1, len(prefix) - 1, -1):
                 kind, n, info = ch.points[i]
                 for alt in range(n - 1, 0, -1):
